@@ -61,6 +61,9 @@ def check(ctx):
     # FloorWithPrecision / CeilWithPrecision over exactly representable inputs: the integer n of result = n / 10^places
     rows = R.run_kind(ctx, 'precision', shards=2)
     R.compare(ctx, rows, proj_all, 'C04 FloorWithPrecision / CeilWithPrecision: n with result = n / 10^places (integers compared)', nontrivial=lambda c, gd: True, max_report=2)
+    # Average over narrow integer element types (int8 ... uint32): the exact mean of the values, no wrap-around in the element type
+    rows = R.run_kind(ctx, 'numtype', shards=1)
+    R.compare(ctx, rows, proj_all, 'C04 Average over narrow integer element types: the exact mean (integers compared)', nontrivial=lambda c, gd: True, max_report=2)
     more_rule = C04_more.parts(ctx)
     gen = C04_gen.parts(ctx)
     cre = C04_create.parts(ctx)
